@@ -52,10 +52,13 @@ def env_of(r, cfg, peer):
 
 # ---- 1. injectivity --------------------------------------------------------------------------------------------
 NCH = ["a", "A", "-", "_", "b", "1"]
+# second alphabet: the token characters an environ-key mapping could fold onto '_' besides '-'
+NCH2 = ["a", "-", "_", ".", "!", "~"]
 
 
 def _name(i, j, n):
-    return NCH[i] + (NCH[j] if n == 2 else "")
+    alpha = NCH2 if CASE.get("alpha") == 2 else NCH
+    return alpha[i] + (alpha[j] if n == 2 else "")
 
 
 def inject(i1: int, j1: int, i2: int, j2: int) -> bool:
@@ -386,10 +389,13 @@ _PEER_ALLOW = [(pi, ai) for pi in range(5) for ai in range(4)]
 
 OBLIGATIONS = [
     Ob("C08.inject", "inject",
-       cases={"quick": [{"header_map": hm, "n1": a, "n2": b} for hm in ("drop", "refuse") for a, b in ((1, 1), (1, 2), (2, 2))],
-              "thorough": [{"header_map": hm, "n1": a, "n2": b} for hm in ("drop", "refuse") for a, b in ((1, 1), (1, 2), (2, 1), (2, 2))]},
+       cases={"quick": [{"header_map": hm, "n1": a, "n2": b} for hm in ("drop", "refuse") for a, b in ((1, 1), (1, 2), (2, 2))] +
+                       [{"header_map": "drop", "n1": 2, "n2": 2, "alpha": 2}],
+              "thorough": [{"header_map": hm, "n1": a, "n2": b} for hm in ("drop", "refuse") for a, b in ((1, 1), (1, 2), (2, 1), (2, 2))] +
+                          [{"header_map": hm, "n1": 2, "n2": 2, "alpha": 2} for hm in ("drop", "refuse")]},
        timeout={"quick": 900, "thorough": 3000},
-       bound="two header names of 1..2 characters chosen from {a, A, -, _, b, 1} through the real parse_headers + wsgi.create"),
+       bound="two header names of 1..2 characters chosen from {a, A, -, _, b, 1} (and, 2 characters each, from {a, -, _, ., !, ~}) "
+             "through the real parse_headers + wsgi.create"),
     Ob("C08.inject_sym", "inject_sym",
        cases={"quick": [{"header_map": hm, "n1": 1, "n2": 1} for hm in ("drop", "refuse")] + [{"header_map": "drop", "n1": 2, "n2": 1}],
               "thorough": [{"header_map": hm, "n1": a, "n2": b} for hm in ("drop", "refuse") for a, b in ((1, 1), (2, 1), (2, 2))]},
